@@ -94,6 +94,7 @@ def _work(payload):
 def graph_ops(n):
     ops = [("compress",), ("clear",), ("copy",)]
     ops += [("lc", v) for v in range(n)]
+    ops += [("lcd", v) for v in range(n)]        # local_complemented: returns a NEW graph, the sequence continues on it
     for a in range(n):
         for b in range(a + 1, n):
             ops += [("add", a, b), ("remove", a, b), ("swap", a, b)]
@@ -102,7 +103,7 @@ def graph_ops(n):
 
 def model_apply(n, masks, op):
     masks = list(masks)
-    if op[0] == "lc":
+    if op[0] in ("lc", "lcd"):
         return lc_masks(n, masks, op[1])
     if op[0] == "clear":
         return [0] * n
@@ -143,6 +144,8 @@ def lib_apply(g, op):
         g.compress()
     elif op[0] == "copy":
         return g.copy()
+    elif op[0] == "lcd":
+        return g.local_complemented(op[1])
     return g
 
 
@@ -171,12 +174,20 @@ def judge_sequence(n, gid, seq):
     bad = observe_mismatch(n, g, masks)
     if bad:
         return "initially: " + bad
+    frozen = []          # graphs a copying operation was called on: they must keep their value whatever happens to the copy
     for k, op in enumerate(seq):
+        if op[0] in ("copy", "lcd"):
+            frozen.append((g, list(masks), k))
         g = lib_apply(g, op)
         masks = model_apply(n, masks, op)
+        done = " ".join("%s%s" % (o[0], ",".join(map(str, o[1:]))) for o in seq[:k + 1])
         bad = observe_mismatch(n, g, masks)
         if bad:
-            return "after %s: %s" % (" ".join("%s%s" % (o[0], ",".join(map(str, o[1:]))) for o in seq[:k + 1]), bad)
+            return "after %s: %s" % (done, bad)
+        for fg, fmasks, fk in frozen:
+            if not np.array_equal(np.asarray(fg.adjacency_matrix), adj_from_masks(n, fmasks)):
+                return "after %s: the graph that operation %d (%s) was called on has changed, although only the returned graph was modified" % (
+                    done, fk + 1, seq[fk][0])
     return None
 
 
